@@ -1,86 +1,55 @@
 package main
 
-// The keyed child: the real listener fetches its DRKeys from a DRKey daemon
-// (scion.NewDaemonConnector -> gRPC) that the harness runs itself.  The
-// daemon's host-AS key is a function of (protocol, server ISD-AS, server host,
-// client ISD-AS) within one fixed epoch, so the host-host key differs for
-// every (server host, client host) pair - unlike USE_MOCK_KEYS, where every key
-// is the zero key.  The listener takes the server host from the SCION
-// destination host of the request, so one listener can be addressed under
-// several host addresses.
+// The keyed child: the real listener and the real client fetch their DRKeys
+// from a DRKey daemon (scion.NewDaemonConnector -> gRPC) that the harness runs
+// itself (drkeyown.go: the harness' own key hierarchy, written from the DRKey
+// specification, no project or scionproto derivation code).  The host-host key
+// differs for every (server ISD-AS and host, client ISD-AS and host, epoch) -
+// unlike USE_MOCK_KEYS, where every key is the zero key.  The listener takes
+// the server host from the SCION destination host of the request, so one
+// listener can be addressed under several host addresses.  The daemon treats
+// some client ASes specially (modeOfIA): error, key of an epoch that is over,
+// key of a wrong length.
 
 import (
-	"context"
-	"crypto/sha256"
-	"fmt"
-	"net"
-	"net/netip"
+	"os"
+	"strings"
+	"sync"
 	"time"
-
-	"google.golang.org/grpc"
-	"google.golang.org/protobuf/types/known/timestamppb"
-
-	"github.com/scionproto/scion/pkg/addr"
-	"github.com/scionproto/scion/pkg/drkey"
-	sdpb "github.com/scionproto/scion/pkg/proto/daemon"
-	"github.com/scionproto/scion/pkg/scrypto/cppki"
 
 	"example.com/scion-time/net/scion"
 
 	"verifharness/lib"
 )
 
-var epochBegin, epochEnd time.Time
+var keyedDaemonAddr string // "" outside the keyed child
 
-func hostASKeyBytes(proto int32, srvIA, cliIA uint64, srvHost string) []byte {
-	h := sha256.Sum256([]byte(fmt.Sprintf("%d|%d|%d|%s|%d", proto, srvIA, cliIA, srvHost, epochBegin.Unix())))
-	return h[:16]
-}
-
-type fakeDaemon struct {
-	sdpb.UnimplementedDaemonServiceServer
-}
-
-func (*fakeDaemon) DRKeyHostAS(ctx context.Context, req *sdpb.DRKeyHostASRequest) (*sdpb.DRKeyHostASResponse, error) {
-	return &sdpb.DRKeyHostASResponse{
-		EpochBegin: timestamppb.New(epochBegin),
-		EpochEnd:   timestamppb.New(epochEnd),
-		Key:        hostASKeyBytes(int32(req.ProtocolId), req.SrcIa, req.DstIa, req.SrcHost),
-	}, nil
-}
-
-func startFakeDaemon(ip net.IP) string {
-	now := time.Now()
-	epochBegin, epochEnd = now.Add(-6*time.Hour), now.Add(6*time.Hour)
-	l, err := net.Listen("tcp", net.JoinHostPort(ip.String(), "0"))
-	if err != nil {
-		panic(err)
+// strictOn: also emit the keyed cases under the strict kinds (cli.strict,
+// srv.strict), whose oracle demands that authentication fails closed.  The
+// pinned code does not (KNOWN_FINDINGS): on by C13_STRICT=1, or by default once
+// the findings file has an entry for kind cli.strict of this property.
+var strictOn = func() bool {
+	switch os.Getenv("C13_STRICT") {
+	case "1":
+		return true
+	case "0":
+		return false
 	}
-	s := grpc.NewServer()
-	sdpb.RegisterDaemonServiceServer(s, &fakeDaemon{})
-	go s.Serve(l)
-	return l.Addr().String()
-}
+	b, err := os.ReadFile(os.Getenv("VERIF_ROOT") + "/KNOWN_FINDINGS.txt")
+	if err != nil {
+		return false
+	}
+	for _, l := range strings.Split(string(b), "\n") {
+		if strings.HasPrefix(l, "finding:") && strings.Contains(l, "property=C13 ") && strings.Contains(l, "kind=cli.strict ") {
+			return true
+		}
+	}
+	return false
+}()
 
-// hostHostKey: the key the listener derives for a request from cliHost in
-// cliIA addressed to srvHost in srvIA (host-AS key of the daemon, then the
-// project's own DeriveHostHostKey).
+// hostHostKey: the key of the current epoch between a server and a client host.
 func hostHostKey(srvIA, cliIA uint64, srvHost, cliHost []byte) []byte {
-	sh, ok1 := netip.AddrFromSlice(srvHost)
-	ch, ok2 := netip.AddrFromSlice(cliHost)
-	if !ok1 || !ok2 {
-		return nil
-	}
-	hak := drkey.HostASKey{
-		ProtoId: scion.DRKeyProtocolTS, SrcIA: addr.IA(srvIA), DstIA: addr.IA(cliIA), SrcHost: sh.String(),
-		Epoch: drkey.Epoch{Validity: cppki.Validity{NotBefore: epochBegin, NotAfter: epochEnd}},
-	}
-	copy(hak.Key[:], hostASKeyBytes(int32(scion.DRKeyProtocolTS), srvIA, cliIA, sh.String()))
-	hhk, err := scion.DeriveHostHostKey(hak, ch.String())
-	if err != nil {
-		return nil
-	}
-	return hhk.Key[:]
+	return ownKey(srvIA, cliIA, srvHost, cliHost, epochServed(cliIA))
 }
 
 // keyedKey: a datagram to the service port is a request (server = destination),
@@ -90,9 +59,25 @@ func keyedKey(p *parsed) []byte {
 		return nil
 	}
 	if p.isUDP && p.udp.DstPort == scionPort {
-		return hostHostKey(uint64(p.scn.DstIA), uint64(p.scn.SrcIA), p.scn.RawDstAddr, p.scn.RawSrcAddr)
+		return expectedKey(uint64(p.scn.DstIA), uint64(p.scn.SrcIA), p.scn.RawDstAddr, p.scn.RawSrcAddr)
 	}
-	return hostHostKey(uint64(p.scn.SrcIA), uint64(p.scn.DstIA), p.scn.RawSrcAddr, p.scn.RawDstAddr)
+	return expectedKey(uint64(p.scn.SrcIA), uint64(p.scn.DstIA), p.scn.RawSrcAddr, p.scn.RawDstAddr)
+}
+
+// keyedFlags: for a request to the service, whether the daemon hands out a key
+// for the client's AS and whether that key's epoch is the current one.
+func keyedFlags(raw []byte) []string {
+	p := parse(raw)
+	keyok, epochok := true, true
+	if p.ok && p.isUDP && p.udp.DstPort == scionPort {
+		switch modeOfIA(uint64(p.scn.SrcIA)) {
+		case modeError, modeShort, modeLong:
+			keyok = false
+		case modeExpired:
+			epochok = false
+		}
+	}
+	return []string{lib.Bool(keyok), lib.Bool(epochok)}
 }
 
 // genKeyedHistory: one listener goroutine (one sending socket, so one
@@ -105,7 +90,17 @@ func (d *drv) genKeyedHistory(r *lib.Rng) ([]step, string) {
 	sender := r.Intn(nSenders)
 	listener := r.Intn(2)
 	srvIA := uint64(1+r.Intn(3))<<48 | 0xff0000000100 | uint64(r.Intn(64))
-	cliIAs := []uint64{uint64(1+r.Intn(3))<<48 | 0xff0000000200 | uint64(r.Intn(64)), uint64(1+r.Intn(3))<<48 | 0xff0000000300 | uint64(r.Intn(64))}
+	// the second client AS is sometimes one the daemon refuses, or serves a stale or malformed key for
+	mode2 := lib.Pick(r, 3, 3, 3, modeError, modeError, modeExpired, modeExpired, modeShort, modeLong)
+	cliIAs := []uint64{uint64(1+r.Intn(3))<<48 | 0xff0000000200 | uint64(r.Intn(64)), uint64(1+r.Intn(3))<<48 | 0xff0000000000 | uint64(mode2)<<8 | uint64(r.Intn(64))}
+	switch mode2 {
+	case modeError:
+		tags["daemon-error"] = true
+	case modeExpired:
+		tags["daemon-expired-epoch"] = true
+	case modeShort, modeLong:
+		tags["daemon-key-length"] = true
+	}
 	nHosts := 2 + r.Intn(2)
 	type host struct {
 		t   uint8
@@ -128,7 +123,7 @@ func (d *drv) genKeyedHistory(r *lib.Rng) ([]step, string) {
 		}
 		ci := r.Intn(nHosts)
 		cliIA := cliIAs[0]
-		if r.Intn(4) == 0 {
+		if r.Intn(4) == 0 || mode2 != 3 && r.Bool() {
 			cliIA = cliIAs[1]
 			tags["second-client-as"] = true
 		}
@@ -138,10 +133,27 @@ func (d *drv) genKeyedHistory(r *lib.Rng) ([]step, string) {
 			udpSrc: uint16(20000 + r.Intn(10000)), udpDst: scionPort}
 		h.pathType, h.pathRaw = genPath(r, tagset{})
 		h.payload = ntpRequest(r, 0)
+		if r.Intn(4) == 0 { // NTS and packet authentication at once
+			v := lib.Pick(r, 0, 0, 0, 1, 2, 3)
+			h.payload = ntsRequest(r, v)
+			if v == 0 {
+				tags["nts-valid"] = true
+			} else {
+				tags["nts-invalid"] = true
+			}
+		}
 		switch k := r.Intn(10); {
 		case k < 5 || len(steps) < 2: // the key of the addressed host
 			addAuth(r, h, lib.Pick(r, 0, 0, 0, 8, 10), tagset{})
 			tags["key-of-addressed-host"] = true
+			if expectedKey(srvIA, cliIA, srvHosts[si].raw, cliHosts[ci].raw) == nil && r.Bool() {
+				h.key = ownKey(srvIA, cliIA, srvHosts[si].raw, cliHosts[ci].raw, epochOf(time.Now()))
+				tags["key-the-daemon-withholds"] = true
+			}
+			if modeOfIA(cliIA) == modeExpired && r.Intn(3) == 0 {
+				h.key = ownKey(srvIA, cliIA, srvHosts[si].raw, cliHosts[ci].raw, epochOf(time.Now()))
+				tags["current-key-daemon-serves-stale"] = true
+			}
 		case k < 7: // the key of another address of the server
 			oi := (si + 1 + r.Intn(nHosts-1)) % nHosts
 			addAuth(r, h, 0, tagset{})
@@ -182,26 +194,129 @@ func (d *drv) genKeyedHistory(r *lib.Rng) ([]step, string) {
 	return steps, tags.String()
 }
 
+// ---- the keyed client ----
+
+func genKeyedItem(r *lib.Rng, tags tagset) item {
+	var it item
+	switch r.Intn(10) {
+	case 0, 1, 2: // the real listener's answer (its key: derived from the daemon's host-AS key)
+		it.base = 1
+		tags["relayed"] = true
+		if r.Intn(4) == 0 {
+			it.reqFlip = 1 + r.Intn(1<<20)
+			tags["request-damaged"] = true
+		}
+	default:
+		it.auth = lib.Pick(r, 1, 1, 1, 1, 0, 0, 10, 2, 3, 13, 13, 14, 15, 4, 5, 6, 7, 8, 9, 11, 12)
+		switch it.auth {
+		case 1, 8, 9, 11:
+			tags["resp-auth-valid"] = true
+		case 2, 3, 7:
+			tags["resp-auth-badmac"] = true
+		case 13:
+			tags["resp-mac-other-epoch"] = true
+		case 14:
+			tags["resp-mac-other-host-key"] = true
+		case 15:
+			tags["resp-mac-mock-key"] = true
+		case 0, 10:
+			tags["resp-noauth"] = true
+		default:
+			tags["resp-auth-ignored"] = true
+		}
+		if r.Intn(8) == 0 {
+			it.ntp = 1 + r.Intn(4)
+			tags["resp-ntp-bad"] = true
+		}
+		if r.Intn(10) == 0 {
+			it.addr = 1 + r.Intn(6)
+			tags["resp-addr"] = true
+		}
+	}
+	if r.Intn(4) == 0 { // the finished response (MAC included) is damaged on the way
+		it.flip = 1 + r.Intn(1<<20)
+		tags["resp-damaged"] = true
+	}
+	return it
+}
+
+func genKeyedCliCase(r *lib.Rng) (*cliCase, string) {
+	tags := tagset{"nt": true, "keyed": true}
+	cc := &cliCase{auth: r.Intn(8) != 0, seed: r.U64() >> 1, keyed: true}
+	cc.mode = lib.Pick(r, modeOK, modeOK, modeOK, modeOK, modeOK, modeError, modeError, modeExpired, modeExpired, modeShort, modeLong)
+	if cc.auth {
+		tags["client-auth"] = true
+		switch cc.scenario() {
+		case 2:
+			tags["client-without-key"] = true
+		case 3:
+			tags["client-stale-key"] = true
+		}
+	} else {
+		tags["client-noauth"] = true
+	}
+	nx := lib.Pick(r, 1, 1, 2, 3)
+	for i := 0; i < nx; i++ {
+		n := lib.Pick(r, 1, 1, 2, 2, 2, 2, 3, 3)
+		var s []item
+		for j := 0; j < n; j++ {
+			s = append(s, genKeyedItem(r, tags))
+		}
+		cc.scripts = append(cc.scripts, s)
+	}
+	return cc, tags.String()
+}
+
+func (d *drv) runKeyedCliAll(r *lib.Rng, n int) {
+	type job struct {
+		cc   *cliCase
+		tags string
+	}
+	jobs := make(chan job)
+	var wg sync.WaitGroup
+	for w := 0; w < 16; w++ {
+		wg.Add(1)
+		go func(sender int) {
+			defer wg.Done()
+			for j := range jobs {
+				d.runCli("cli.keyed", j.tags, j.cc, sender)
+			}
+		}(w % nSenders)
+	}
+	for i := 0; i < n && !d.lost; i++ {
+		cc, tags := genKeyedCliCase(r)
+		jobs <- job{cc, tags}
+	}
+	close(jobs)
+	wg.Wait()
+}
+
 func keyedChild(a lib.Args) {
 	ip := ownAddr(213)
-	daemonAddr := startFakeDaemon(ip)
+	keyedDaemonAddr = startOwnDaemon(ip)
 	keyFn = keyedKey
-	d := newDrvDaemon(daemonAddr)
+	stepFlags = keyedFlags
+	srvKind = "srv.keyed"
+	d := newDrvDaemon(keyedDaemonAddr)
 	if a.Replay != "" {
 		for _, l := range lib.ReplayLines(a.Replay) {
-			if l[0] == "srv.keyed" {
-				d.runSrvKind("srv.keyed", l[1], parseSteps(l[2]))
+			switch l[0] {
+			case "srv.keyed", "srv.strict":
+				d.runSrvKind(l[0], l[1], parseSteps(l[2]))
+			case "cli.keyed", "cli.strict":
+				d.runCli(l[0], l[1], parseKeyedCliArgs(l[2]), 0)
 			}
 		}
 		return
 	}
 	r := lib.NewRng(a.Seed ^ 0x6b657965)
-	n := 250
+	n, nCli := 250, 250
 	if a.Tier == "thorough" {
-		n = 2500
+		n, nCli = 2500, 2500
 	}
 	for i := 0; i < n && !d.lost; i++ {
 		steps, tags := d.genKeyedHistory(r)
 		d.runSrvKind("srv.keyed", tags, steps)
 	}
+	d.runKeyedCliAll(r.Fork(), nCli)
 }
